@@ -1,4 +1,6 @@
 import BSModel.Model.Adapter
+import BSModel.Proofs.AdapterVoid
+import BSModel.Props.C03
 /-! # C04 — html.parser documents become the tree the markup describes
 
 The adapter `BeautifulSoupHTMLParser` as a function from the standard-library parser's callback stream to builder
@@ -8,6 +10,16 @@ namespace BS.Props.C04
 open BS.Builder BS.Adapter
 
 /-! ### void elements -/
+
+/-- **void elements are childless siblings of what follows**, for EVERY callback stream the standard-library
+    parser can emit, in any mixture of `<br>`, `<br/>`, `<br></br>` and stray end tags: in the tree the construction
+    machine (code-mirror) builds from the adapter's events, no element with a void name has a child -/
+theorem void_childless (bcfg : Cfg) (cfg : ACfg) (hc : CfgOK bcfg) (hr : cfg.isVoid bcfg.rootName = false)
+    (sevs : List SEv) : voidLeafL cfg.isVoid (adapterBuild bcfg cfg sevs).1 = true := by
+  simp only [adapterBuild]
+  rw [BS.Props.C03.build_refines bcfg hc]
+  exact buildSpec_voidLeaf bcfg cfg hr sevs
+
 
 /-- whichever way a void element is written — `<br>` or `<br/>` — the adapter sends the builder the same two
     events, a start tag immediately followed by its own end tag: nothing can become its child -/
